@@ -162,13 +162,13 @@ func (e *Eng) encodeFunction(fn *ssa.Function, con *Contract) (res *FnResult) {
 					w := f.evalClause(se, wc)
 					ws = append(ws, w)
 					c.oblige(Item{Guard: r.guard, Formula: implies(w, formula), Name: res.Key + "/ensures:" + pl + suffix + fmt.Sprintf("[known:%d]", fd.Line), Class: "known",
-						Pos: f.pos(r.pos), Text: en.Text, Watch: watch, Finding: fd})
+						Pos: f.pos(r.pos), Text: en.Text, Watch: watch, Finding: fd, Replay: f.replayInfo(r.results, cur)})
 				}
 				if len(ws) > 0 {
 					formula = implies(not(or(ws...)), formula)
 				}
 				c.oblige(Item{Guard: r.guard, Formula: formula, Name: res.Key + "/ensures:" + pl + suffix, Class: "ensures",
-					Pos: f.pos(r.pos), Text: en.Text, Replay: &ReplayInfo{}, Watch: watch})
+					Pos: f.pos(r.pos), Text: en.Text, Replay: f.replayInfo(r.results, cur), Watch: watch})
 			}
 		}
 		if con.HasMod && !con.ModAll {
@@ -319,4 +319,12 @@ func (f *FnEnc) guardedAccess(fr *Frame, st *State, R string, addr ssa.Value, wr
 	n := f.nextOrd("guarded:" + fname + ":" + kind)
 	f.c.oblige(Item{Guard: R, Formula: cond, Name: f.eng.fnKey(f.fn) + fmt.Sprintf("/guarded:%s.%s:%s#%d", named.Obj().Name(), fname, kind, n), Class: "guarded",
 		Pos: f.pos(fa.Pos()), Text: fmt.Sprintf("%s of %s.%s requires %s held", kind, named.Obj().Name(), fname, g.mu)})
+}
+
+func (f *FnEnc) replayInfo(results []Val, post *State) *ReplayInfo {
+	ri := &ReplayInfo{Fn: f.fn, Pre: f.st0, Post: post, Results: results}
+	for _, p := range f.fn.Params {
+		ri.Params = append(ri.Params, f.top.vals[p])
+	}
+	return ri
 }
